@@ -1,31 +1,258 @@
+// C11 harness: hot reload converges to the latest object.
+//
+// Real entry points driven: clusters.NewEmptyClusterInfo / ClusterInfo.Sync / clusters.CreateClusterInfo (and, at
+// controller level, UpstreamClusterController.syncUpstreamCluster through an overlay shim); observed through the public
+// accessors FeatureEnabled, LoadTLSConfig, LoadVerifyOptions, LoadServerNames, AllEndpoints, Endpoints.Load().IstDisabled,
+// GetFlowSchema().String(), MatchAttributes (+ the picker's FlowControlName/FlowControl/EnableLog) and read-only shims
+// for the stored policy list, logging mode, limiter mode and the picker's upstream list.
+// Model: KG.Model.ClusterSync (driver method C11.run / C11.ctl); judge: KG.Spec.ClusterSync.expected.
 package main
 
 import (
+	"encoding/json"
+	"flag"
 	"fmt"
+	"io"
+	"os"
+	"path/filepath"
+	"runtime"
+	"sort"
+	"strings"
 
-	metav1 "k8s.io/apimachinery/pkg/apis/meta/v1"
+	"k8s.io/klog"
 
-	proxyv1alpha1 "github.com/kubewharf/kubegateway/pkg/apis/proxy/v1alpha1"
-	"github.com/kubewharf/kubegateway/pkg/clusters"
+	"verifharness/rig"
 )
 
-func main() {
-	for _, ep := range []string{"http://127.0.0.1:1", "https://127.0.0.1:1", "http://%zz", "https://%zz", "://x", "http://a b", "", "127.0.0.1:1", "http://127.0.0.1:1/path", "http://[::1", "ftp://x", "http://"} {
-		uc := &proxyv1alpha1.UpstreamCluster{ObjectMeta: metav1.ObjectMeta{Name: "c"},
-			Spec: proxyv1alpha1.UpstreamClusterSpec{Servers: []proxyv1alpha1.UpstreamClusterServer{{Endpoint: "http://127.0.0.1:9"}}}}
-		ci, err := clusters.CreateClusterInfo(uc, func(*clusters.EndpointInfo) bool { return false }, "", nil)
-		if err != nil {
-			fmt.Println("create", err)
-			continue
+func silenceKlog() {
+	fs := flag.NewFlagSet("klog", flag.ContinueOnError)
+	klog.InitFlags(fs)
+	fs.Set("logtostderr", "false")     //nolint
+	fs.Set("alsologtostderr", "false") //nolint
+	fs.Set("stderrthreshold", "FATAL") //nolint
+	klog.SetOutput(io.Discard)
+}
+
+func runCase(c *rig.Ctx, cs Case) verdict {
+	if cs.Mode == "ctl" {
+		return runCtl(c, cs)
+	}
+	return runCI(c, cs)
+}
+
+func record(c *rig.Ctx, cs Case, v verdict) {
+	c.Fail(rig.Failure{Kind: v.kind, Class: v.class, What: v.what, Case: cs, Impl: v.impl, Model: v.model})
+}
+
+// shrink: drop versions (the last one stays), then blank field groups of the remaining ones, as long as the
+// same class of failure is still produced.
+func shrink(c *rig.Ctx, cs Case, v verdict) (Case, verdict) {
+	same := func(x Case) (verdict, bool) {
+		w := runCase(c, x)
+		return w, !w.ok && w.class == v.class
+	}
+	if cs.Mode == "ctl" {
+		ops := rig.ShrinkList(cs.Ops, func(l []COp) bool {
+			x := cs
+			x.Ops = renumber(l)
+			_, s := same(x)
+			return s
+		})
+		cs.Ops = renumber(ops)
+		w, _ := same(cs)
+		if !w.ok {
+			v = w
 		}
-		uc2 := uc.DeepCopy()
-		uc2.Spec.Servers = append(uc2.Spec.Servers, proxyv1alpha1.UpstreamClusterServer{Endpoint: ep})
-		err = ci.Sync(uc2)
-		fmt.Printf("%q sync err=%v eps=%v\n", ep, err, ci.AllEndpoints())
-		uc3 := uc.DeepCopy()
-		uc3.Spec.Servers = []proxyv1alpha1.UpstreamClusterServer{{Endpoint: ep}}
-		_, err = clusters.CreateClusterInfo(uc3, nil, "", nil)
-		fmt.Printf("%q create err=%v\n", ep, err)
-		ci.Stop()
+		return cs, v
+	}
+	if n := len(cs.History); n > 1 {
+		last := cs.History[n-1]
+		pre := rig.ShrinkList(cs.History[:n-1], func(l []WObj) bool {
+			x := cs
+			x.History = append(append([]WObj{}, l...), last)
+			_, s := same(x)
+			return s
+		})
+		cs.History = append(append([]WObj{}, pre...), last)
+		// maybe the last one is not needed either
+		if len(cs.History) > 1 {
+			x := cs
+			x.History = cs.History[:len(cs.History)-1]
+			if _, s := same(x); s {
+				cs = x
+			}
+		}
+	}
+	for i := range cs.History {
+		for f := 0; f < nFields+1; f++ {
+			x := cs
+			x.History = append([]WObj{}, cs.History...)
+			o := x.History[i].clone()
+			switch f {
+			case 0:
+				o.Ann = nil
+			case 1:
+				o.Servers = nil
+			case 2:
+				o.SS.Key, o.SS.Cert = "", ""
+			case 3:
+				o.SS.CA = ""
+			case 4:
+				o.SS.Names = nil
+			case 5:
+				o.Schemas = nil
+			case 6:
+				o.Policies = nil
+			case 7:
+				o.Logging = ""
+			case 8:
+				o.Client = WClient{}
+			}
+			x.History[i] = o
+			if _, s := same(x); s {
+				cs = x
+			}
+		}
+	}
+	cs.Probes = rig.ShrinkList(cs.Probes, func(l []mgAttrs) bool {
+		x := cs
+		x.Probes = l
+		_, s := same(x)
+		return s
+	})
+	w, _ := same(cs)
+	if !w.ok {
+		v = w
+	}
+	return cs, v
+}
+
+func sig(cs Case) string { return rig.Canon(cs) }
+
+func histBuckets(c *rig.Ctx, labels []string) {
+	seen := map[string]bool{}
+	for _, l := range labels {
+		if !seen[l] {
+			seen[l] = true
+			c.Count("varied:" + l)
+		}
+	}
+}
+
+func main() {
+	silenceKlog()
+	initPEM()
+	rig.Main("C11", func(c *rig.Ctx) {
+		c.SetRule("a case is a history of 1-12 versions of one UpstreamCluster applied to one long-lived real ClusterInfo (ci), or a script of " +
+			"writes/deletes/deliveries/re-deliveries for 1-3 clusters through the real syncUpstreamCluster (ctl); versions vary annotations (nil/added/" +
+			"changed/removed, gates added and dropped, malformed), servers (added/removed/disabled/duplicated/unusable), serving key/cert/client CA " +
+			"(replaced, cleared, half-cleared, corrupted, mismatching; real throw-away certificates), server names, flow-control schemas (resized, " +
+			"retyped, removed, restored, duplicated, out-of-range), dispatch policies and logging; distinct = distinct canonical case; non-trivial = " +
+			"at least two versions, i.e. some state is carried from one object to the next")
+		if c.Replay != "" {
+			var cs Case
+			if err := c.LoadReplay(&cs); err != nil {
+				fmt.Fprintln(os.Stderr, err)
+				os.Exit(2)
+			}
+			c.Case(sig(cs), true, "replay", func() interface{} { return cs })
+			c.Trace()
+			if v := runCase(c, cs); !v.ok {
+				record(c, cs, v)
+			}
+			return
+		}
+		// corpus of past failures first
+		files, _ := filepath.Glob(filepath.Join(os.Getenv("VERIF_DIR"), "harness", "corpus", "C11", "*.json"))
+		sort.Strings(files)
+		for _, f := range files {
+			b, err := os.ReadFile(f)
+			if err != nil {
+				continue
+			}
+			var env struct {
+				Case Case `json:"case"`
+			}
+			if json.Unmarshal(b, &env) != nil {
+				c.Note("corpus file %s does not decode", f)
+				continue
+			}
+			c.Case(sig(env.Case), true, "corpus", nil)
+			c.Trace()
+			if v := runCase(c, env.Case); !v.ok {
+				v.what = "corpus " + filepath.Base(f) + ": " + v.what
+				record(c, env.Case, v)
+			}
+		}
+		// ClusterInfo level
+		n := c.Budget(260, 6000)
+		maxLen := 12
+		for i := 0; i < n && c.NFailures() < 4; i++ {
+			raw := i%5 == 4
+			hist, labels := genHistory(c.Rng, "c.example", maxLen, raw)
+			cs := Case{Mode: "ci", Global: rig.Pick(c.Rng, []string{"", "local", "remote", "remote"}), History: hist, Probes: genProbes(c.Rng)}
+			stream := "ci-valid"
+			if raw {
+				stream = "ci-raw"
+			}
+			c.Case(sig(cs), len(hist) >= 2, fmt.Sprintf("%s len=%02d", stream, len(hist)), func() interface{} {
+				return map[string]interface{}{"mode": "ci", "versions": len(hist), "varied": labels}
+			})
+			histBuckets(c, labels)
+			c.Trace()
+			if v := runCase(c, cs); !v.ok {
+				scs, sv := shrink(c, cs, v)
+				record(c, scs, sv)
+			}
+		}
+		// controller level
+		m := c.Budget(120, 2500)
+		for i := 0; i < m && c.NFailures() < 4; i++ {
+			cs, labels := genCtl(c.Rng, i%5 == 4)
+			c.Case(sig(cs), true, fmt.Sprintf("ctl ops=%02d", len(cs.Ops)/4*4), func() interface{} {
+				return map[string]interface{}{"mode": "ctl", "ops": len(cs.Ops), "varied": labels}
+			})
+			histBuckets(c, labels)
+			c.Trace()
+			if v := runCase(c, cs); !v.ok {
+				scs, sv := shrink(c, cs, v)
+				record(c, scs, sv)
+			}
+		}
+		gateTie(c)
+		dumpGoroutines()
+		c.SetExtra("goroutines_at_end", runtime.NumGoroutine())
+		if g := runtime.NumGoroutine(); g > 2000 {
+			c.Note("goroutines at end: %d (ClusterInfos are stopped after every case; expected a few hundred at most)", g)
+		}
+	})
+}
+
+// gateTie: the driver's executable featuregate.Set against the real one on the whole annotation universe
+// (the model takes featuregate.Set as a parameter; this keeps the executable instance honest).
+func gateTie(c *rig.Ctx) {
+	vals := append(append([]string{}, goodGateVals...), badGateVals...)
+	vals = append(vals, "AllAlpha=true,AllBeta=true", "AllBeta=false,Tracing=true", "\tTracing=true", "Tracing=TRUE", "Tracing=tRUE", "DenyAllRequests=0")
+	for _, v := range vals {
+		real := realGates(v)
+		var m [][]interface{}
+		if err := c.Model("C11.gates", map[string]interface{}{"v": rig.Hex(v)}, &m); err != nil {
+			c.Fail(rig.Failure{Kind: "diff", Class: "c11.model-error", What: err.Error(), Case: v})
+			return
+		}
+		model := "error"
+		if m != nil {
+			var l []string
+			for _, g := range m {
+				l = append(l, fmt.Sprintf("%s=%v", rig.UnHex(g[0].(string)), g[1].(bool)))
+			}
+			sort.Strings(l)
+			model = strings.Join(l, ",")
+		}
+		c.Case("gates:"+v, false, "gate-annotation", nil)
+		if real != model {
+			c.Fail(rig.Failure{Kind: "diff", Class: "c11.diff.featuregate-set", Case: map[string]string{"annotation": v}, Impl: real, Model: model,
+				What: fmt.Sprintf("featuregate.Set(%q) on a copy of the defaults: code %s, executable model %s", v, real, model)})
+		}
 	}
 }
